@@ -684,6 +684,15 @@ func hostileInputs() []hostile {
 		hs = append(hs, hostile{"huge-length-header-in-wrapper", dMPValue, hex.EncodeToString(append([]byte{0x92, 0xc4, 0x11}, append([]byte(`["list","string"]`), b...)...)), cty.DynamicPseudoType, len(b) + 19})
 		hs = append(hs, hostile{"huge-length-header-in-refinement", dMPValue, hex.EncodeToString(append([]byte{0xc7, byte(len(b)), 0x0c}, b...)), cty.String, len(b) + 3})
 	}
+	// an unknown list whose refinement fixes its length: the value must not be built out of that many placeholders
+	for _, n := range [][]byte{{0xce, 0x01, 0x00, 0x00, 0x00}, {0xce, 0x7f, 0xff, 0xff, 0xff}, {0xcf, 0x00, 0x00, 0x01, 0x00, 0x00, 0x00, 0x00, 0x00}, {0xcd, 0x04, 0x01}} {
+		body := append(append(append([]byte{0x83, 0x01, 0xc2, 0x05}, n...), 0x06), n...)
+		in := append([]byte{0xc7, byte(len(body)), 0x0c}, body...)
+		for _, t := range []cty.Type{cty.List(cty.String), cty.Set(cty.String), cty.Map(cty.String), cty.List(cty.DynamicPseudoType)} {
+			hs = append(hs, hostile{"exact-length-refinement", dMPValue, hex.EncodeToString(in), t, len(in)})
+		}
+		hs = append(hs, hostile{"exact-length-refinement-nested", dMPValue, hex.EncodeToString(append([]byte{0x91}, in...)), cty.Tuple([]cty.Type{cty.List(cty.Number)}), len(in) + 1})
+	}
 	const deep = 6000000
 	hs = append(hs,
 		hostile{"deep-nesting", dMPImplied, fmt.Sprintf("rep:91:%d:c0", deep), cty.DynamicPseudoType, deep + 1},
@@ -821,6 +830,10 @@ func genC17(c *Ctx, r *rng.R, i int) {
 	t := gt.Gen(r, cfg)
 	vcfg := gv.DefaultCfg
 	vcfg.NoMarks, vcfg.MarkPct = true, 0
+	if r.Chance(7) {
+		c17Heterogeneous(c, r)
+		return
+	}
 	mode := r.Intn(100)
 	switch {
 	case mode < 55: // MessagePack
@@ -954,6 +967,111 @@ func genC17(c *Ctx, r *rng.R, i int) {
 		desc := map[string]interface{}{"decoder": dJSONType, "input": string(input), "kind": class}
 		if o, ok := decode17(c, dJSONType, input, cty.DynamicPseudoType, desc); ok {
 			c.jsonCases(dJSONType, input, cty.DynamicPseudoType, o, class, desc)
+		}
+	}
+}
+
+// c17Heterogeneous: collections whose element type is left to the input (list / set / map of dynamic): members
+// that name different types of their own, separated by untyped nulls and unknowns. The collection constructors
+// refuse such member lists, so the decoders have to.
+func c17Heterogeneous(c *Ctx, r *rng.R) {
+	pool := []cty.Value{cty.StringVal("a"), cty.NumberIntVal(1), cty.True, cty.ListVal([]cty.Value{cty.StringVal("x")}),
+		cty.StringVal("b"), cty.NumberIntVal(2), cty.EmptyObjectVal, cty.NullVal(cty.String)}
+	n := 2 + r.Intn(4)
+	ms := make([]cty.Value, n)
+	same := r.Chance(35) // all typed members of one type: decodes
+	first := pool[r.Intn(len(pool))]
+	for k := range ms {
+		switch {
+		case r.Chance(30):
+			ms[k] = cty.NullVal(cty.DynamicPseudoType)
+		case r.Chance(10):
+			ms[k] = cty.DynamicVal
+		case same:
+			ms[k] = first
+		default:
+			ms[k] = pool[r.Intn(len(pool))]
+		}
+	}
+	asMap := r.Chance(30)
+	nested := r.Chance(25)
+	var targets []cty.Type
+	if asMap {
+		targets = []cty.Type{cty.Map(cty.DynamicPseudoType), cty.DynamicPseudoType}
+	} else {
+		targets = []cty.Type{cty.List(cty.DynamicPseudoType), cty.Set(cty.DynamicPseudoType), cty.DynamicPseudoType}
+	}
+	if nested {
+		for k := range targets {
+			targets[k] = cty.List(targets[k])
+		}
+	}
+	// MessagePack
+	{
+		var body []byte
+		ok := true
+		for k, m := range ms {
+			b, err := msgpack.Marshal(m, cty.DynamicPseudoType)
+			if err != nil {
+				ok = false
+				break
+			}
+			if asMap {
+				body = append(body, 0xa2, 'k', byte('0'+k))
+			}
+			body = append(body, b...)
+		}
+		if ok {
+			hdr := byte(0x90 | n)
+			if asMap {
+				hdr = byte(0x80 | n)
+			}
+			input := append([]byte{hdr}, body...)
+			if nested {
+				input = append([]byte{0x91}, input...)
+			}
+			for _, ty := range targets {
+				desc := map[string]interface{}{"decoder": dMPValue, "input": hex.EncodeToString(input), "target": fmt.Sprintf("%#v", ty), "kind": "heterogeneous"}
+				if o, ok := decode17(c, dMPValue, input, ty, desc); ok {
+					c.mpCases(input, ty, o, "heterogeneous", desc)
+				}
+			}
+		}
+	}
+	// JSON (no unknown values there)
+	{
+		var parts []string
+		ok := true
+		for k, m := range ms {
+			if !m.IsKnown() {
+				m = cty.NullVal(cty.DynamicPseudoType)
+			}
+			b, err := ctyjson.Marshal(m, cty.DynamicPseudoType)
+			if err != nil {
+				ok = false
+				break
+			}
+			if asMap {
+				parts = append(parts, fmt.Sprintf("%q:%s", fmt.Sprintf("k%d", k), b))
+			} else {
+				parts = append(parts, string(b))
+			}
+		}
+		if ok {
+			doc := "[" + strings.Join(parts, ",") + "]"
+			if asMap {
+				doc = "{" + strings.Join(parts, ",") + "}"
+			}
+			if nested {
+				doc = "[" + doc + "]"
+			}
+			input := []byte(doc)
+			for _, ty := range targets {
+				desc := map[string]interface{}{"decoder": dJSONValue, "input": doc, "target": fmt.Sprintf("%#v", ty), "kind": "heterogeneous"}
+				if o, ok := decode17(c, dJSONValue, input, ty, desc); ok {
+					c.jsonCases(dJSONValue, input, ty, o, "heterogeneous", desc)
+				}
+			}
 		}
 	}
 }
